@@ -1062,6 +1062,9 @@ func (g *gen) call() []string {
 		if r.Intn(8) == 0 {
 			st, key = "acc", "void" // a key whose value is empty
 		}
+		if r.Intn(10) == 0 {
+			st, key = "acc", "root" // a key whose value has the form of a Merkle hash
+		}
 		path := "/store/" + st + "/key"
 		if r.Intn(15) == 0 {
 			path = "/custom/" + st
@@ -1183,6 +1186,8 @@ func scriptedCases(emit func(core.Case)) {
 			{"abci", "path=" + path + " data=" + hx([]byte("void")) + " qh=2", "Value+ProofOps:degenerate-prefix", 2},
 			{"abci", "path=" + path + " data=" + hx([]byte("genesis")) + " qh=2", "Value+ProofOps:keyless-prefix", 2},
 			{"abci", "path=" + path + " data=" + hx([]byte("genesis")) + " qh=2", "Value+ProofOps", 2},
+			{"abci", "path=" + path + " data=" + hx([]byte("root")) + " qh=2", "Value+ProofOps:keyless-prefix", 3},
+			{"abci", "path=" + path + " data=" + hx([]byte("root")) + " qh=2", "none", 0},
 			{"abci", "path=" + path + " data=" + hx([]byte("genesis")) + " qh=6", "none", 0}},
 		"request-binding": {{"block", "req=3", "Block:other-height", 4}, {"blockbyhash", "req=" + hx(c.lbs[2].Hash()), "Block:other-height", 4},
 			{"cparams", "req=3", "Answer:other-height", 1}, {"cparams", "req=3", "none", 0}, {"bcinfo", "min=3 max=3", "BlockMetas:other-range", 4},
